@@ -49,13 +49,14 @@ CHECKS = {
              "lexicographic variant over candidates-not-excluded and hopefuls, across restarts) verified against a counter-level contract: the main loop's variant 2*nH+nP decreases (termination), enough candidates remain (W2) is an inductive "
              "invariant, on return nobody is hopeful or pending, the seats are filled and the withdrawn count is untouched; every "
              "call of elect/defeat/unpend meets the writer's precondition (CfER: every pending surplus of a round is transferred in one nested "
-             "loop; 'Elect pending' re-elects pending candidates). meek-prf and the upper bound 'not more than the seats' are covered by "
-             "the bounded stand-in only.",
+             "loop; 'Elect pending' re-elects pending candidates). meek-prf count() is verified in the thorough tier only (161 obligations "
+             "incl. the variant of the iteration loop; generation takes ~30 min); in the quick tier it, and the upper bound 'not more than "
+             "the seats' for every rule, are covered by the bounded stand-in only.",
         design_ref='DESIGN 6/C01, 11.6',
         note=COMMON_NOTE + "Assumed: the election model of candidates.py selectors (Candidates.select/hopeful/... as abstract "
              "lists with ghost cardinalities nH,nE,nD,nW,nP updated at every status write: card-update lemma), the C15 post-parse "
              "invariant of rankings, trusted contracts of batchDefeat (wigm-prf, cfer) and findCertainLosers (mpls) (bounded stand-in). The select model is itself checked against the real body (8 POST obligations). "
-             "meek-prf count() body: bounded only (labelled). QPQ: ZeroDivisionError is declared possible (its absence rests on the "
+             "meek-prf count() body: thorough tier only (quick tier: bounded, labelled). QPQ: ZeroDivisionError is declared possible (its absence rests on the "
              "QPQ ledger invariant, bounded only). Meek/Warren: distributeVotes and batchDefeat are trusted contracts "
              "(frame + 'an elected candidate keeps a positive tally'), termination of iterate() under exact rational arithmetic is not decided, "
              "and arithmetic=integer is outside the rule's domain (its own assertion rejects it). nE <= seats: bounded only.",
